@@ -423,6 +423,13 @@ def regex_theory(prog):
         results.append({'query': 'pattern anchored at both ends', 'result': 'unsat', 'witness': None, 'solver_s': 0})
     query('MUST_ACCEPT subset-of L(pattern)', z3.InRe(s, MUST), z3.Not(z3.InRe(s, L)))
     query('L(pattern) restricted to Latin-1 subset-of STRUCTURE', z3.InRe(s, L), z3.InRe(s, latin1), z3.Not(z3.InRe(s, STRUCT)))
+    # what an (unanchored) search with this pattern accepts, anchors and flags taken into account: nothing outside STRUCTURE
+    try:
+        ACC = RX.accepted_language(rx.ast)
+        query('strings accepted by a search with the pattern (anchors / multi-line flag included), Latin-1, subset-of STRUCTURE',
+              z3.InRe(s, ACC), z3.InRe(s, latin1), z3.Not(z3.InRe(s, STRUCT)))
+    except Unsupported as e:
+        results.append({'query': 'accepted language', 'result': 'unknown: %s' % e, 'witness': None, 'solver_s': 0})
     return rx.pattern, results
 
 
